@@ -5,7 +5,6 @@ import (
 	"go/ast"
 	"go/token"
 	"go/types"
-	"path/filepath"
 	"sort"
 	"strings"
 
@@ -21,14 +20,17 @@ func init() {
 	})
 }
 
+// resolverFuncs: the functions of pkg/types reachable from ResultsOf (with their literals),
+// wherever they are declared.
 func resolverFuncs(p *core.Program) []*core.Func {
 	var out []*core.Func
+	entry := p.FuncByName("pkg/types", "(*pkgInfo).ResultsOf")
+	if entry == nil {
+		return nil
+	}
+	reach := reachableFrom(p, entry)
 	for _, f := range p.Funcs() {
-		if core.RelPkg(f.Pkg.PkgPath) != "pkg/types" {
-			continue
-		}
-		file := filepath.Base(p.Fset.Position(f.Node().Pos()).Filename)
-		if file == "function_result_resolver.go" || file == "function_result.go" {
+		if reach[f] && core.RelPkg(f.Pkg.PkgPath) == "pkg/types" {
 			out = append(out, f)
 		}
 	}
@@ -139,19 +141,26 @@ func c14R1(p *core.Program, r *core.Report, fs []*core.Func) {
 		sorted := append([]string(nil), names...)
 		sort.Strings(sorted)
 		construct := "recursion cycle avoiding the visited guard: " + strings.Join(sorted, " <-> ")
-		// accepted: callExprResultAt <-> resultsAtReturnOrAssignment with structural descent
-		if len(cyc) == 2 && strings.Join(sorted, ",") == "callExprResultAt,resultsAtReturnOrAssignment" {
-			ce := p.FuncByName("pkg/types", "(*funcResultsResolver).callExprResultAt")
-			ra := p.FuncByName("pkg/types", "(*funcResultsResolver).resultsAtReturnOrAssignment")
-			ok := ce != nil && ra != nil
-			if ok {
-				for _, c := range edges[ce][ra] {
-					if !structuralDescent(callIn[c], ce, c) {
-						ok = false
-					}
+		// accepted: a cycle one of whose edges hands down a strict sub-term of a call expression at every
+		// call site (the expression list is a literal of the range variable over <call>.Args): each round
+		// of the cycle works on a strictly smaller expression
+		descends := false
+		var via *core.Func
+		for i, from := range cyc {
+			to := cyc[(i+1)%len(cyc)]
+			calls := edges[from][to]
+			all := len(calls) > 0
+			for _, c := range calls {
+				if !structuralDescent(callIn[c], c) {
+					all = false
 				}
 			}
-			r.Check(ok, rule, ce, construct, cyc[0].Node().Pos(), "side condition: the expression list passed down is a literal of the range variable over callExpr.Args (strict sub-term)", "the cycle is not cut by the visited set and the argument handed down is not a strict sub-term of the call expression: unbounded recursion is possible")
+			if all {
+				descends, via = true, from
+			}
+		}
+		if descends {
+			r.OK(rule, via, construct, cyc[0].Node().Pos(), "side condition: the expression list passed down is a literal of the range variable over <call expression>.Args (strict sub-term)")
 			continue
 		}
 		r.Bad(rule, cyc[0], construct, cyc[0].Node().Pos(), "a recursion cycle of the resolver does not pass the visited-guarded entry: directly or mutually recursive functions can recurse without bound (fatal stack overflow)")
@@ -228,8 +237,9 @@ func c14R1(p *core.Program, r *core.Report, fs []*core.Func) {
 // structuralDescent: call c (inside function in, nested in root) passes as its
 // expression-list argument a composite literal whose only element is the
 // range variable of a loop over <param>.Args.
-func structuralDescent(in *core.Func, root *core.Func, c *ast.CallExpr) bool {
+func structuralDescent(in *core.Func, c *ast.CallExpr) bool {
 	info := in.Info()
+	root := in.Root()
 	for _, a := range c.Args {
 		cl, ok := ast.Unparen(a).(*ast.CompositeLit)
 		if !ok {
@@ -312,6 +322,37 @@ func c14R2(p *core.Program, r *core.Report) {
 	}
 }
 
+// countedLoop recognises `for i := ..; i < B; ..` / `i <= B` and the range-over-int form
+// `for i := range B` (B an integer expression): index variable, bound expression, body.
+func countedLoop(info *types.Info, n ast.Node) (iv *types.Var, bound ast.Expr, body *ast.BlockStmt, op token.Token, ok bool) {
+	switch x := n.(type) {
+	case *ast.ForStmt:
+		if x.Cond == nil {
+			return
+		}
+		b, isBin := ast.Unparen(x.Cond).(*ast.BinaryExpr)
+		if !isBin || (b.Op != token.LSS && b.Op != token.LEQ) {
+			return
+		}
+		iv = core.VarOf(info, b.X)
+		return iv, b.Y, x.Body, b.Op, iv != nil
+	case *ast.RangeStmt:
+		if x.Key == nil || x.Value != nil {
+			return
+		}
+		t := info.TypeOf(x.X)
+		if t == nil {
+			return
+		}
+		if bt, isBasic := t.Underlying().(*types.Basic); !isBasic || bt.Info()&types.IsInteger == 0 {
+			return
+		}
+		iv = core.VarOf(info, x.Key)
+		return iv, x.X, x.Body, token.LSS, iv != nil
+	}
+	return
+}
+
 var boundAccessors = map[string][]string{
 	"Len":        {"At", "Index"},
 	"NumFields":  {"Field", "Tag"},
@@ -372,22 +413,33 @@ func canonBase(p *core.Program, f *core.Func, e ast.Expr, depth int) string {
 func c14R3(p *core.Program, r *core.Report) {
 	const rule = "R3"
 	r.Floor(rule, 10)
-	for _, f := range p.Funcs() {
+	// over flattened units: a loop moved into a private helper keeps the definitions of its bounds
+	var units []*core.Func
+	for _, pkg := range p.InScope() {
+		units = append(units, pkgUnits(p, core.RelPkg(pkg.PkgPath))...)
+	}
+	for _, f := range units {
+		if f.Body == nil {
+			continue
+		}
 		info := f.Info()
 		ast.Inspect(f.Body, func(n ast.Node) bool {
 			if lit, ok := n.(*ast.FuncLit); ok && lit != f.Lit {
 				return false
 			}
-			fs, ok := n.(*ast.ForStmt)
-			if !ok || fs.Cond == nil {
+			iv, boundE, loopBody, loopOp, isLoop := countedLoop(info, n)
+			if !isLoop {
 				return true
 			}
-			b, ok := ast.Unparen(fs.Cond).(*ast.BinaryExpr)
-			if !ok || (b.Op != token.LSS && b.Op != token.LEQ) {
-				return true
-			}
-			iv := core.VarOf(info, b.X)
-			bound, ok := ast.Unparen(b.Y).(*ast.CallExpr)
+			fs := struct {
+				Body *ast.BlockStmt
+				Cond ast.Expr
+			}{loopBody, boundE}
+			b := struct {
+				Op token.Token
+				Y  ast.Expr
+			}{loopOp, boundE}
+			bound, ok := ast.Unparen(boundE).(*ast.CallExpr)
 			if iv == nil || !ok {
 				return true
 			}
@@ -410,7 +462,7 @@ func c14R3(p *core.Program, r *core.Report) {
 				return true
 			}
 			if b.Op == token.LEQ {
-				r.Bad(rule, f, "loop bound "+core.ExprStr(fs.Cond), fs.Pos(), "`<=` against a length: the last index is out of range")
+				r.Bad(rule, f, "loop bound "+core.ExprStr(fs.Cond), n.Pos(), "`<=` against a length: the last index is out of range")
 				return true
 			}
 			found := 0
@@ -688,15 +740,12 @@ func filledByLoop(p *core.Program, f *core.Func, v *types.Var, length ast.Expr) 
 	want := canonBase(p, f, length, 0)
 	result := lenSummary{false, "no loop 0.." + core.ExprStr(length) + " fills every slot of " + v.Name()}
 	ast.Inspect(f.Body, func(n ast.Node) bool {
-		fs, ok := n.(*ast.ForStmt)
-		if !ok || fs.Cond == nil || fs.Init == nil {
+		iv, lbound, lbody, lop, ok := countedLoop(info, n)
+		if !ok || lop != token.LSS {
 			return true
 		}
-		b, ok := ast.Unparen(fs.Cond).(*ast.BinaryExpr)
-		if !ok || b.Op != token.LSS {
-			return true
-		}
-		iv := core.VarOf(info, b.X)
+		fs := struct{ Body *ast.BlockStmt }{lbody}
+		b := struct{ Y ast.Expr }{lbound}
 		if iv == nil || canonBase(p, f, b.Y, 0) != want {
 			if iv != nil {
 				// a loop over this slice with another bound
@@ -711,12 +760,15 @@ func filledByLoop(p *core.Program, f *core.Func, v *types.Var, length ast.Expr) 
 			}
 			return true
 		}
-		init, ok := fs.Init.(*ast.AssignStmt)
-		if !ok || len(init.Rhs) != 1 || !constIs(info, init.Rhs[0], 0) {
-			return true
-		}
-		if post, ok := fs.Post.(*ast.IncDecStmt); !ok || post.Tok != token.INC {
-			return true
+		// starts at 0 and steps by one: the range-over-int form does by definition
+		if ff, isFor := n.(*ast.ForStmt); isFor {
+			init, ok := ff.Init.(*ast.AssignStmt)
+			if !ok || len(init.Rhs) != 1 || !constIs(info, init.Rhs[0], 0) {
+				return true
+			}
+			if post, ok := ff.Post.(*ast.IncDecStmt); !ok || post.Tok != token.INC {
+				return true
+			}
 		}
 		// top-level statements of the loop body
 		isSlotAppend := func(s ast.Stmt) bool {
@@ -1000,12 +1052,12 @@ func indexBoundedFor(p *core.Program, f *core.Func, at ast.Node, idx ast.Expr, r
 	// enclosing counted loop over iv
 	path := core.PathTo(f.Root().Body, at)
 	for k := len(path) - 1; k >= 0; k-- {
-		fs, ok := path[k].(*ast.ForStmt)
-		if !ok || fs.Cond == nil {
+		liv, lbound, _, lop, ok := countedLoop(info, path[k])
+		if !ok {
 			continue
 		}
-		b, ok := ast.Unparen(fs.Cond).(*ast.BinaryExpr)
-		if ok && b.Op == token.LSS && core.VarOf(info, b.X) == iv {
+		b := struct{ Y ast.Expr }{lbound}
+		if lop == token.LSS && liv == iv {
 			if lb := lenOf(b.Y); lb != "" {
 				if lb == relBase {
 					return true, "loop bounded by the same sequence in " + f.Root().Name
